@@ -23,6 +23,7 @@ LTYPES = {
     "tuple[Q,int]": ["tuple", [Q, ["int"]]],
     "tuple[Q,Q]": ["tuple", [Q, Q]],
     "PyTree[Q]": ["pytree", Q],
+    "tuple[PyTree[Q],Q]": ["tuple", [["pytree", Q], Q]],
     "PyTree[Q,'S']": ["pytree", Q, "S"],
 }
 # tree skeletons: number of leaf positions and a builder from a list of leaf specs
@@ -44,13 +45,13 @@ def leaf_for(lname, sizes):
         return ["duck", [sizes[0], 4]]
     if lname == "tuple[Q,int]":
         return ["tuple", [A(sizes[0]), ["lit", 1]]]
-    if lname == "tuple[Q,Q]":
+    if lname in ("tuple[Q,Q]", "tuple[PyTree[Q],Q]"):
         return ["tuple", [A(sizes[0]), A(sizes[1])]]
     return A(sizes[0])
 
 
 def arity(lname):
-    return 2 if lname == "tuple[Q,Q]" else 1
+    return 2 if lname in ("tuple[Q,Q]", "tuple[PyTree[Q],Q]") else 1
 
 
 def sequences(lname, tier):
